@@ -1614,9 +1614,18 @@ func (d *DFA) getStartState(cache *DFACache, haystack []byte, pos int, anchored 
 	// This handles the case where another goroutine may have inserted it
 	insertedState, existed, err := cache.GetOrInsert(key, state)
 	if err != nil {
-		// Cache full - return the computed state anyway
-		// (it won't be cached, but search can continue)
-		return state
+		// Cache full: the state has no ID, so its transitions cannot be looked up in
+		// the flat table (an ID-less state reads row 0, i.e. the transitions of
+		// whichever state sits in slot 0 - an anchored search then ran on the
+		// unanchored start state). Make room once; otherwise the caller falls back
+		// to the NFA.
+		if clearErr := d.tryClearCache(cache); clearErr != nil {
+			return nil
+		}
+		insertedState, existed, err = cache.GetOrInsert(key, state)
+		if err != nil {
+			return nil
+		}
 	}
 
 	// Register in ID lookup map (only if we inserted a new state)
@@ -2203,7 +2212,15 @@ func (d *DFA) getStartStateForReverse(cache *DFACache, haystack []byte, end int)
 
 	insertedState, existed, err := cache.GetOrInsert(key, state)
 	if err != nil {
-		return state
+		// Cache full: an ID-less state cannot be used with the flat table (see
+		// getStartState). Make room once, else let the caller fall back.
+		if clearErr := d.tryClearCache(cache); clearErr != nil {
+			return nil
+		}
+		insertedState, existed, err = cache.GetOrInsert(key, state)
+		if err != nil {
+			return nil
+		}
 	}
 
 	if !existed {
